@@ -55,6 +55,19 @@ Section Portion.
       else if (control <? lower) || ((upper <? control) && cclosed V c) then between_lengths c upper lower
       else Ok None.
 
+  (* airfoil::helpers::extract_edge_sub_curve, from the two arc lengths where the ends of the spanning ray meet the section: both
+     orders are portioned, the first piece shorter than the fraction of the perimeter is kept *)
+  Definition short_piece (limit : num) (p : option (curve V)) : option (curve V) :=
+    match p with Some q => if clength V q <? limit then Some q else None | None => None end.
+  Definition edge_sub (c : curve V) (la lb frac : num) : res (option (curve V)) :=
+    match between_lengths c la lb, between_lengths c lb la with
+    | Ok p0, Ok p1 =>
+        let limit := clength V c * frac in
+        match short_piece limit p0 with Some q => Ok (Some q) | None => Ok (short_piece limit p1) end
+    | Panic, _ | _, Panic => Panic
+    | _, _ => Err
+    end.
+
   Definition trim_front (c : curve V) (l : num) := between_lengths c l (clength V c).
   Definition trim_back (c : curve V) (l : num) := between_lengths c n0 (clength V c - l).
 
